@@ -6,6 +6,7 @@ import GB.C02.Stable
 import GB.C02.WithCtx
 import GB.C02.CloseOnce
 import GB.C02.Paths
+import GB.C02.WsStall
 /-
   C02 — every bridged call terminates promptly and releases its resources.
 
@@ -514,3 +515,52 @@ theorem C02_no_call_after_error (p : Params) (tr : List (Label M E)) (s : State 
 example : (GB.LTS.run (step (M := Nat) (E := Nat) { cs := true, ss := true, incAware := true, outAware := true }) (init Nat Nat)
     [.outStreamCall, .outStreamRet .ok, .incRecvCall, .incRecvRet (.msg 1), .outSendCall 1, .outSendRet (.err 7),
      .outSendCall 1]).isNone = true := by decide
+
+/-! ### Round 5 (e): a WebSocket client that has stopped reading (seeded change C02-m9; twin of D35)
+
+  GB/C02/WsStall.lean: the start of the epilogue when a response write abandoned by withCtx is still blocked inside
+  gws WriteMessage (holding gws's write mutex) because the client does not read. -/
+
+/-- Real order (deadline armed BEFORE the close frame is written): for a reading or a stalled client, with or without
+    a blocked writer, every step decreases `rank` (≤ 7) and some step of the bridge is enabled until the handler has
+    returned — the blocked write and ReadLoop end by the connection deadline, nothing waits for the client. -/
+theorem C02_ws_stall_terminates (stalled writer : Bool) (s : GB.WsStall.State)
+    (hr : GB.LTS.Reachable (GB.WsStall.step true stalled) (GB.WsStall.init true writer) s) :
+    GB.WsStall.rank s ≤ 7 ∧
+    (∀ l s', GB.WsStall.step true stalled s l = some s' → GB.WsStall.rank s' < GB.WsStall.rank s) ∧
+    (s.h ≠ .returned → ∃ l, (GB.WsStall.step true stalled s l).isSome = true) := by
+  have hinv : GB.WsStall.Inv s ∧ GB.WsStall.rank s ≤ 7 := by
+    refine GB.LTS.invariant (GB.WsStall.step true stalled) (GB.WsStall.init true writer)
+      (fun s => GB.WsStall.Inv s ∧ GB.WsStall.rank s ≤ 7) ⟨GB.WsStall.inv_init writer, ?_⟩ ?_ s hr
+    · cases writer <;> simp [GB.WsStall.rank, GB.WsStall.init, GB.WsStall.hRank]
+    · intro s l s' ⟨hi, hk⟩ hs
+      exact ⟨GB.WsStall.inv_step stalled s s' l hi hs,
+        Nat.le_trans (Nat.le_of_lt (GB.WsStall.rank_decreases stalled s s' l hi hs)) hk⟩
+  exact ⟨hinv.2, fun l s' hs => GB.WsStall.rank_decreases stalled s s' l hinv.1 hs,
+    GB.WsStall.progress stalled s hinv.1⟩
+
+/-- Swapped statements (close frame written BEFORE the deadline is armed), kernel-checked negative witness: stalled
+    client + blocked writer ⇒ in the very first state NO step is enabled — the handler waits for the write mutex, the
+    writer and ReadLoop wait for a deadline nobody will set: handler, ReadLoop and helper stay until the client's TCP
+    connection goes away (seeded change C02-m9; harness case `web en=ws sc=stall`). -/
+theorem C02_ws_stall_swapped_deadlocks :
+    ∀ l : GB.WsStall.Label, GB.WsStall.step false true (GB.WsStall.init false true) l = none := by
+  intro l; cases l <;> decide
+
+/-- Facts tie (regenerated from webbridge/websocket.go and grpcweb.go): closeGracefully arms the connection deadline
+    before its write; sendTrailer arms it before it takes the send mutex and again before its writes (D35). -/
+theorem C02_facts_ws_close_order :
+    GB.Generated.wsCloseOrder =
+      [("closeGracefully", ["SetDeadline", "WriteMessage"]),
+       ("gRPCWebSocketStream.sendTrailer", ["SetDeadline", "Lock", "SetDeadline", "WriteMessage", "closeGracefully"])] := by
+  decide
+
+/-- the order parameter of the stall model, from the fact: in both functions the first operation is SetDeadline -/
+def C02_wsDeadlineFirst : Bool := GB.Generated.wsCloseOrder.all (fun x => decide (x.2.head? = some "SetDeadline"))
+
+theorem C02_ws_stall_repo (stalled writer : Bool) (s : GB.WsStall.State)
+    (hr : GB.LTS.Reachable (GB.WsStall.step C02_wsDeadlineFirst stalled) (GB.WsStall.init C02_wsDeadlineFirst writer) s)
+    (hn : s.h ≠ .returned) : ∃ l, (GB.WsStall.step C02_wsDeadlineFirst stalled s l).isSome = true := by
+  have e : C02_wsDeadlineFirst = true := by decide
+  rw [e] at hr ⊢
+  exact (C02_ws_stall_terminates stalled writer s hr).2.2 hn
